@@ -2,6 +2,7 @@ import PallasVerif.Model.PlutusData
 import PallasVerif.Proofs.PlutusDataOrd
 import PallasVerif.Proofs.PlutusDataCodec
 import PallasVerif.Proofs.PlutusDataDec
+import PallasVerif.Proofs.PlutusDataDecSound
 /-!
 # C07 — PlutusData round-trips; its comparison is a total order
 
@@ -185,6 +186,24 @@ theorem pdata_roundtrip_bytes_exact (d : PData) (r : Bytes) (h : fits d = true) 
 theorem bytes_any_chunking (cs : List (Head × Bytes)) (r : Bytes) (hw : chunksWf 2 cs = true) :
     Dec.decodeBytes ((Item.strIndef 2 cs).encode ++ r) = some (.bytes (chunksPayload cs), r) :=
   Dec.decodeBytes_refines _ _ r (by simp [Item.wf, hw]) (by simp [ofItem])
+
+/-- **the decoder is exactly "strict CBOR parser, then the tree decoder"**: it accepts `bs` with
+    value `d` and rest `r` iff the first well-formed CBOR item of `bs` is a tree that `ofItem` maps to
+    `d` and `r` is what follows that item. (Both directions; nothing lenient, nothing stricter.) -/
+theorem decoder_is_parse_then_tree (bs : Bytes) (d : PData) (r : Bytes) :
+    Dec.decodeBytes bs = some (d, r) ↔ ∃ i : Item, parseItem bs = some (i, r) ∧ ofItem i = some d :=
+  Dec.decodeBytes_iff bs d r
+
+/-- the specification-level decoder and the byte-level decoder are the same function -/
+theorem decode_eq_decodeBytes (bs : Bytes) : decode bs = (Dec.decodeBytes bs).map (·.1) :=
+  Dec.decode_eq_decodeBytes bs
+
+/-- what the decoder consumes is exactly one well-formed CBOR data item (so a raw span kept
+    around a decoded value is that item's bytes, break bytes included) -/
+theorem decoded_span_is_one_item (bs : Bytes) (d : PData) (r : Bytes) (h : Dec.decodeBytes bs = some (d, r)) :
+    ∃ span, bs = span ++ r ∧ isSingleItem span = true := by
+  obtain ⟨i, w, _, e⟩ := Dec.decodeBytes_sound bs d r h
+  exact ⟨i.encode, e, isSingleItem_encode i w⟩
 
 /-- **the decoder never leaves the quantifier**: whatever it returns, on any input (malformed,
     lenient, truncated-then-completed …), has valid constructor tags at every depth — so comparing
